@@ -22,7 +22,7 @@ theorem len4 {s : List Nat} (h : s.length = 4) : ∃ a b c d, s = [a, b, c, d] :
 /-- rank 4: nothing is added, the network's result is returned as is -/
 theorem flaxMap_rank4 {α : Type} (net : Arr α → Arr α) (x : Arr α) (hx : x.shape.length = 4)
     (hy : (net x).shape.length = 4) : flaxMap net x = .ok (net x) := by
-  unfold flaxMap
+  unfold flaxMap flaxPre flaxPost
   simp [hx, hy]
 
 theorem canon_rank4 {α : Type} (x : Arr α) (hx : x.shape.length = 4) : canon x = x := by
@@ -54,7 +54,7 @@ theorem flaxMap_eq_spec {α : Type} (net : Arr α → Arr α) (x : Arr α)
   · obtain ⟨h, w, rfl⟩ := len2 h2
     rw [canon_rank2] at hy
     obtain ⟨k, h', w', c', hys⟩ := len4 hy
-    unfold flaxMap specFlaxMap
+    unfold flaxMap flaxPre flaxPost specFlaxMap
     rw [canon_rank2]
     simp only [List.length_cons, List.length_nil, List.cons_append, List.nil_append, if_true]
     simp only [hys, addedAxes]
@@ -63,7 +63,7 @@ theorem flaxMap_eq_spec {α : Type} (net : Arr α → Arr α) (x : Arr α)
   · obtain ⟨h, w, c, rfl⟩ := len3 h3
     rw [canon_rank3] at hy
     obtain ⟨k, h', w', c', hys⟩ := len4 hy
-    unfold flaxMap specFlaxMap
+    unfold flaxMap flaxPre flaxPost specFlaxMap
     rw [canon_rank3]
     simp only [List.length_cons, List.length_nil, List.cons_append, List.nil_append]
     simp only [show ¬ (0 + 1 + 1 + 1 = 2) by omega, if_false, if_true, hys, addedAxes]
